@@ -90,3 +90,45 @@ PROPS['C16'] = dict(
     min_obs={'quick': {'alloc_measurements': 2000, 'views_checked': 8000}, 'thorough': {'alloc_measurements': 2000}},
     timeout={'quick': 900, 'thorough': 3*3600},
 )
+
+PROPS['C20'] = dict(
+    runs=[run('plain')], shards=16, watchdog=True, level='exploration',
+    rule=('lines built through the public fastlog API and compared with the concatenation of reference-rendered fields (strconv, fmt %02x/%04x, '
+          'net.HardwareAddr.String, net.IP.String / netip.Addr.String, time.Duration.String, time.Format(StampMilli), fmt %+v): all 65536 uint16 in '
+          'decimal and hex, all 256 bytes in decimal/hex/every MAC position/ByteArray, boundary uint32/int, all 256 zero/non-zero masks of the 8 IPv6 '
+          'groups x 3 fill patterns through IPSlice, IP and IPArray, IPv4 / IPv4-mapped forms, PRNG field sequences grown to 60/200/800/1983 bytes; '
+          'arrays (ByteArray, StringArray, IPArray) of 1..4096 elements appended at every 3rd (quick) / every (thorough) fill level 7..2047: no panic, '
+          'output <= 2048 bytes, earlier fields intact, exact when the reference leaves 64 bytes of room; String()/FastLog of generated valid views, '
+          'Host, MACEntry, Addr, Frame.Log, Notification, DNSEntry. Non-trivial = a compared line / array case; distinct = field kind and pattern class'),
+    assumptions=['the standard library renderings are the oracle', 'list punctuation "[e1, e2,]" is taken from the library, only elements are compared with the standard library',
+                 'arrays are compared exactly only when the reference rendering ends 64 bytes before the end of the 2048 byte buffer (the appenders reserve room conservatively)'],
+    min_obs={'quick': {'truncations_observed': 300}, 'thorough': {'truncations_observed': 300}},
+    timeout={'quick': 900, 'thorough': 6*3600},
+)
+
+# ---- manifest texts ---------------------------------------------------------------------------------------------------
+META = {}
+META['C01'] = dict(
+    technique='runtime monitoring: recover/bounds-check sanitizer + CPU-time hang watchdog over worker processes, capacity-independence differential, reflection-enumerated view getters with pointer-containment oracle',
+    level_text='Exploration: the real Parse and every exported view getter are executed on ~7*10^5 (quick) / ~3*10^7 (thorough) generated, truncated, corrupted and random inputs; monitors watch for panics, fatal errors, hangs, results outside the input and dependence on spare capacity. Held-on-what-was-run, not a proof.',
+    level_note='Trusts Go bounds checking to surface every out-of-slice access as a panic, the CPU-time hang criterion (5 s on a microsecond case), and the generators reaching the relevant paths (class counts in the evidence).')
+META['C02'] = dict(
+    technique='runtime differential monitoring against an independent reference decoder (refdec) and getter tables',
+    level_text='Exploration: every generated frame is decoded by the library and by an independently written RFC decoder applying the documented classification table; error-vs-success, PayloadID, addresses, ports and view start pointers are compared; every getter of every view is compared with the value the reference encoder placed at the RFC position.',
+    level_note='Trusted base: refdec (self-tested against golang.org/x/net at the start of every run) and the documented dont-care zones listed in the evidence.')
+META['C03'] = dict(
+    technique='runtime round-trip monitoring: library encoders -> independent decoder + library views, canary-guarded capacity probes',
+    level_text='Exploration: ~1.5*10^5 (quick) / ~8*10^6 (thorough) packets built with the library encoders from generated field values, decoded by refdec and by the library itself and compared with the generator ground truth; capacity probes in canary-guarded buffers.',
+    level_note='Trusted base: refdec decoders; preconditions as documented by the encoders (buffers below the documented minimum only in an observation-only robustness stream).')
+META['C15'] = dict(
+    technique='runtime differential monitoring against an independent RFC 1071 implementation (bounded-exhaustive + random)',
+    level_text='Exploration, exhaustive for all strings of length <= 2 (quick) / <= 3 (thorough): Checksum compared with an independent big-endian implementation, split identity, IPv4 headers and ICMP messages produced by the real encoders/send functions verified to sum to zero.',
+    level_note='Trusted base: refdec.Sum1071 (cross-checked against the RFC 1071 worked example and x/net icmp marshal).')
+META['C16'] = dict(
+    technique='runtime monitoring: pointer-identity / write-through probes and the runtime allocation counter (testing.AllocsPerRun) under 4 builds',
+    level_text='Exploration: for generated well-formed frames of every class the views returned by Parse are checked to alias the buffer at the reference offsets and Parse is measured to allocate 0 objects in steady state, under go1.26.8 and go1.23.5 with the verif tag on and off.',
+    level_note='Trusts runtime allocation accounting; covers the frame classes listed in the evidence class counts.')
+META['C20'] = dict(
+    technique='runtime differential monitoring of fastlog against standard-library renderings, overflow probes at every fill level',
+    level_text='Exploration with exhaustive sweeps of the small value domains (all uint16, all bytes, all 256 IPv6 zero-run layouts x 3 patterns): each line compared with the concatenated reference rendering; arrays longer than the buffer appended at every fill level must neither panic nor overflow.',
+    level_note='Oracle: strconv/fmt/net/netip/time renderings; list punctuation taken from the library.')
